@@ -511,7 +511,27 @@ def source_read_check(bins):
             if not ok:
                 viol.append({"key": "read:%s:%d:%s:%d" % (kind, c["len"], offs, c["n"]),
                              "what": "Source::read on %s len=%d offset=%s size=%d: expected some=%s, got %s (cfg %s)" % (kind, c["len"], offs, c["n"], exp_some, rep, cfg)})
-    return viol, {"model_cases": len(cases), "read_replays": len(reqs) * len(bins), "states": res["distinct"]}
+    # char boundaries: is_boundary / find_boundary of str, String and [u8] for every text of at most 3
+    # characters of 1..4 bytes, two concrete characters per length (one ending in 0xBF continuation bytes)
+    bcases = [r[2] for r in tlc_records(res) if r[0] == "BOUNDARY"]
+    def seq(x):
+        return [x[str(i)] for i in range(len(x))] if isinstance(x, dict) else list(x)
+    breqs = []
+    for c in bcases:
+        for chars in (["a", "\u00e9", "\u20ac", "\U0001f600"], ["z", "\u00bf", "\u0fff", "\U0003ffff"]):
+            data = "".join(chars[k - 1] for k in c["text"]).encode()
+            breqs.append(("B " + data.hex(), c, data))
+    nb = 0
+    for cfg, b in bins.items():
+        reps = run_subject(b, [r[0] for r in breqs], timeout=600)
+        for (line, c, data), rep in zip(breqs, reps):
+            nb += 1
+            exp = {"isb": seq(c["isb"]), "isb_string": seq(c["isb"]), "find": seq(c["find"]), "find_string": seq(c["find"]),
+                   "isbytes": seq(c["isbytes"]), "findbytes": list(range(c["total"] + 1))}
+            for k, v in exp.items():
+                if rep.get(k) != v:
+                    viol.append({"key": "boundary:%s:%s" % (k, data.hex()), "what": "Source %s on %r: expected %s, got %s (cfg %s)" % (k, data.decode(), v, rep.get(k, rep), cfg)})
+    return viol, {"model_cases": len(cases) + len(bcases), "read_replays": len(reqs) * len(bins), "boundary_replays": nb, "states": res["distinct"]}
 
 
 def check_C05(tier, seed, rest):
